@@ -46,6 +46,16 @@ def check_instance(inst, F, ctx, extra):
                 ctx.violation('requested-item-missing', inst, f, 'feature `%s` is requested but the derive produced no item named `%s` (items: %s)' % (f, nm, sorted(inst.assoc)[:12]), key='C10/requested-item-missing/%s' % f, construct='src/parser/attr.rs::parse_attrs / src/parser/feature.rs (the feature list)')
             else:
                 ctx.ok('requested-item-present', inst)
+                # a documented `vis` value that is silently dropped also "compiles": the item enabled with it must carry the
+                # visibility the documentation promises for that value (C15's rule, applied to the three documented values)
+                if p.get('vis') in ('', 'pub(crate)', 'pub'):
+                    from props.c15 import want_vis
+                    wv = want_vis(inst, p['vis'])
+                    if inst.assoc[nm]['vis'] != wv:
+                        ctx.violation('parameter-dropped', inst, f, '`%s` is requested with vis = %r but has resolved visibility %s, documented: %s (enum visibility %s)' % (
+                            nm, p['vis'], inst.assoc[nm]['vis'], wv, inst.adt['vis']), key='C10/parameter-dropped/%s.vis' % f, construct='src/parser/params.rs::get_vis_name')
+                    else:
+                        ctx.ok('parameter-honoured', inst)
             # a requested struct_name is a documented parameter too: the struct the function returns must carry it
             if f in ('iter', 'names') and inst.assoc.get(nm) is not None:
                 sn = p.get('struct_name') or (inst.enum_name + ('Iter' if f == 'iter' else 'Names'))
